@@ -909,6 +909,10 @@ Proof.
   cbv iota beta zeta. apply (R2 s2 _ _ R3).
 Qed.
 
+Lemma view_recon_warn maxid file l sx deleted trailer u :
+  r_warn (rc_view_recon maxid file l sx deleted trailer u) = true.
+Proof. unfold rc_view_recon. destruct (r_fatal _); reflexivity. Qed.
+
 Lemma recon_is_reported_lemma : forall (recover : bool) (file : list N),
   r_recon (rc_view recover file) = true -> rc_exit_code (rc_view recover file) <> 0.
 Proof.
@@ -917,7 +921,11 @@ Proof.
   destruct (xr_ok _).
   - cbn [r_recon r_warn]. apply after_parse_recon; [reflexivity | cbn [rs_recon]; discriminate].
   - destruct recover; [|cbn [r_recon]; discriminate].
-    destruct (r_fatal _); cbn [r_recon r_warn]; reflexivity.
+    intros _.
+    match goal with |- r_warn (match ?l with Some _ => _ | None => _ end) = true => destruct l end.
+    + match goal with |- r_warn (if ?b then _ else _) = true => destruct b end;
+        [reflexivity | apply view_recon_warn].
+    + apply view_recon_warn.
 Qed.
 
 (* ================================================================== witnesses (machine-checked findings) *)
